@@ -10,20 +10,22 @@ def build(asm, tier):
     asm.file('prelude/f64_model.rs')
     asm.file('prelude/anyhow_model.rs')
     asm.file('prelude/std_helpers.rs')
+    asm.file('prelude/btree_entry.rs')
     asm.raw(common.ZERO_TRAIT)
     t, enums = v1types.v1_module(asm.rules)
     asm.extracted(t, 'ommx.v1.rs message types')
     asm.file('spec/poly_value.rs')
+    asm.file('spec/merge_spec.rs')
     asm.raw(al.leaf_spec_text(), 'generated remainder definitions')
     asm.file('spec/fn_algebra.rs')
     asm.raw(al.CONV_SPEC, 'upcast / negation / difference predicates of the macro layer')
     asm.raw(al.LEMMAS, 'algebra lemmas')
-    asm.raw('} // mod lib\npub mod units {\n' + common.UNITS_USES)
+    asm.raw('} // mod lib\npub mod units {\n' + common.UNITS_USES + 'broadcast use super::lib::ax_default_f64;\n')
     stubs, names = al.leaf_stubs()
-    asm.raw(stubs, 'assumed callee contracts (BTreeMap-merge leaves)')
+    asm.raw(stubs + al.MERGE_STUBS, 'assumed callee contracts (BTreeMap-merge leaves)')
     for n in names:
         asm.stubs.append(dict(unit=n, proved_in=''))
-    for u in al.zero_linear() + al.zero_quadratic_polynomial() + al.from_units() + [al.linear_add_f64(), al.linear_mul_f64(), al.quadratic_add_f64(), al.quadratic_mul_f64(), al.polynomial_mul_f64(), al.function_add(), al.function_mul()] + al.macro_units():
+    for u in al.zero_linear() + al.zero_quadratic_polynomial() + al.from_units() + [al.linear_add_f64(), al.linear_mul_f64(), al.quadratic_add_f64(), al.quadratic_mul_f64(), al.polynomial_mul_f64(), al.function_add(), al.function_mul(), al.linear_add_linear()] + al.macro_units():
         asm.unit(u)
     asm.raw('} // mod units\n')
     asm.guard(common.guard_fn('c02', '', uses='use super::lib::*;'), 'vacuity: prelude')
